@@ -984,7 +984,7 @@ func c13Gen(c *Ctx) {
 	c.Note(fmt.Sprintf("exhaustive part: DList — for every state (list 0 with 0..%d nodes, list 1 with 0..%d nodes, one removed node, one never-inserted node) every operation the specification defines with every handle choice (live, foreign, removed, new), followed by a full observation of both lists and all handles; two such operations in sequence for list 0 <= %d, list 1 <= %d nodes; all pairs of operations on untouched zero-value / initialised lists. SList — sizes 0..4, every operation with every index in -1..n+1 (Swap: all pairs) and every detached node, sequences of %d operations", maxA, maxB, a2, b2, depth))
 
 	// ---------------- random long sequences
-	nr := c.N(4000, 80000)
+	nr := c.N(4000, 400000)
 	c.Each(nr, func(i int, t *T) {
 		r := t.R
 		if i%3 != 2 {
